@@ -256,7 +256,11 @@ static int uv__process_open_stream(uv_stdio_container_t* container,
   if (container->flags & UV_READABLE_PIPE)
     flags |= UV_HANDLE_WRITABLE;
 
-  return uv__stream_open(container->data.stream, pipefds[0], flags);
+  err = uv__stream_open(container->data.stream, pipefds[0], flags);
+  if (err == 0)
+    pipefds[0] = -1;  /* Owned by the stream now. */
+
+  return err;
 }
 
 
